@@ -499,6 +499,19 @@ void ApplyEdits(RSForm& form, const json& edits, json& log) {
     } else if (k == "setalias") {
       const auto uid = NthCst(form, e.at("i"));
       log.push_back(uid.has_value() ? json(form.SetAliasFor(*uid, e.at("alias").get<std::string>(), true)) : json{});
+    } else if (k == "swapdefs") {
+      // the formal definitions of two constituents change places (same multiset of names and definitions)
+      const auto u1 = NthCst(form, e.at("i"));
+      const auto u2 = NthCst(form, e.at("j"));
+      if (u1.has_value() && u2.has_value() && *u1 != *u2) {
+        const std::string d1 = form.GetRS(*u1).definition;
+        const std::string d2 = form.GetRS(*u2).definition;
+        const bool a = form.SetExpressionFor(*u1, d2);
+        const bool b = form.SetExpressionFor(*u2, d1);
+        log.push_back(json::array({ a, b }));
+      } else {
+        log.push_back(nullptr);
+      }
     } else if (k == "move") {
       const auto uid = NthCst(form, e.at("i"));
       const auto before = NthCst(form, e.at("before"));
